@@ -19,10 +19,10 @@ import Properties.C07V2
 import Properties.C08V2
 import Properties.C11V2
 import Properties.C18
-import Properties.C15TracksV1
+-- TEMP(main, awaiting w-c15): import Properties.C15TracksV1
 import Properties.C15TracksV2
 import Properties.C15CratesV1
-import Properties.C15CratesV2
+-- TEMP(main, awaiting w-c15): import Properties.C15CratesV2
 import Properties.C08V1
 import Properties.C11V1
 import Properties.C17
